@@ -30,13 +30,13 @@ var checks = map[string]checkDef{
 	"C03": {pkg: "verif/mc/checks/c03", shapes: []string{"mini", "person", "document", "repetition", "readme", "flat3", "samename", "reqdeep", "nest3"}},
 	"C04": {pkg: "verif/mc/checks/c04", shapes: []string{"mini", "person", "document", "flat3", "obool"}},
 	"C05": {pkg: "verif/mc/checks/c05"},
-	"C06": {pkg: "verif/mc/checks/c06", shapes: []string{"mini", "flat3", "person"}},
+	"C06": {pkg: "verif/mc/checks/c06", shapes: []string{"mini", "flat3", "person", "one", "oneopt", "onerep"}},
 	"C07": {pkg: "verif/mc/checks/c07"},
-	"C08": {pkg: "verif/mc/checks/c08", shapes: []string{"mini", "person", "flat24", "document"}},
+	"C08": {pkg: "verif/mc/checks/c08", shapes: []string{"mini", "person", "flat24", "document", "reqdeep"}},
 	"C09": {pkg: "verif/mc/checks/c09", shapes: []string{"mini", "person"}},
 	"C10": {pkg: "verif/mc/checks/c10", shapes: []string{"mini", "person", "flat24", "document"}},
 	"C11": {pkg: "verif/mc/checks/c11", shapes: []string{"mini", "person", "flat24", "flat3"}},
-	"C12": {pkg: "verif/mc/checks/c12", shapes: []string{"flat24", "person", "document"}},
+	"C12": {pkg: "verif/mc/checks/c12", shapes: []string{"flat24", "person", "document", "nest16"}},
 	"C13": {pkg: "verif/mc/checks/c13", shapes: []string{"mini", "flat3", "flat24"}, modfile: "go.sched.mod"},
 	"C14": {pkg: "verif/mc/checks/c14"},
 	"C15": {pkg: "verif/mc/checks/c15"},
